@@ -25,7 +25,7 @@ var c09Specs = []famSpec{
 func init() {
 	register(&run.Prop{
 		ID: "C09",
-		Rule: "case = open subject polylines (horizontal runs, vertices snapped to clip vertices / edge midpoints) + closed clip set (+ optional closed subject set) from the rand-dense, lattice, rand-wide and nested generators, open-big: 3..8 polylines of 20..80 vertices against curves of 200..1000 vertices or 20..40 polygons; executed with Intersection, Union, Difference, Xor under 2 fill rules per case through Clipper64.ExecuteOC (and ClipperD on the same integers for one of them). " +
+		Rule: "case = open subject polylines (horizontal runs, vertices snapped to clip vertices / edge midpoints) + closed clip set (+ optional closed subject set) from the rand-dense, lattice, rand-wide and nested generators, open-big: 3..8 polylines of 20..80 vertices against curves of 200..1000 vertices or 20..40 polygons; executed with Intersection, Union, Difference, Xor under 2 fill rules per case through Clipper64.ExecuteOC (and ClipperD on the same integers for one of them; the open solution handed back by ExecutePolyTree64 must equal ExecuteOC's). " +
 			"Checked: every open-solution vertex within 1.5 units (intersection points are truncated, not rounded) of a subject line; sampled points of the subject lines that are > 2 units from every closed input edge are covered by the open solution (distance <= 1.5) exactly when the predicate for the clip type holds (inside clip for Intersection, outside clip for Difference/Xor, outside both closed regions for Union), winding exact; " +
 			"the closed solution equals, outside the band, the closed solution of the execution without open paths. Non-trivial = at least one sample covered and one not covered; distinct by input digest.",
 		Assumptions: []string{"exact winding of sample points about the closed inputs; coverage by float distance; zero-length open segments are skipped and counted"},
@@ -262,6 +262,42 @@ func c09Run(ctx *run.Ctx, id run.CaseID) {
 			}
 			if math.IsNaN(0) {
 				_ = gen.MaxC
+			}
+		}
+	}
+	// the tree entry point returns the open solution too: it must be the one ExecuteOC returns
+	{
+		ct, fr := clipTypes[r.Intn(4)], fillRules[r.Intn(4)]
+		var openOC Paths
+		var openTree clip.PathsD
+		if ctx.Guard(digest, "ExecutePolyTree64", oc, func() {
+			mk := func() interface {
+				ExecuteOC(clip.ClipType, clip.FillRule, *Paths, *Paths) bool
+				ExecutePolyTree64(clip.ClipType, clip.FillRule, *clip.PolyTree64, *clip.PathsD) bool
+			} {
+				c := clip.NewClipper64()
+				c.AddPaths(oc.Open, clip.Subject, true)
+				c.AddPaths(oc.Subject, clip.Subject, false)
+				c.AddPaths(oc.Clip, clip.Clip, false)
+				return c
+			}
+			cl := Paths{}
+			openOC = Paths{}
+			mk().ExecuteOC(ct, fr, &cl, &openOC)
+			openTree = clip.PathsD{{{X: 1, Y: 2}}} // pre-filled: must be replaced
+			mk().ExecutePolyTree64(ct, fr, clip.NewPolyTree64(), &openTree)
+		}) {
+			ctx.Eval(2)
+			same := len(openTree) == len(openOC)
+			for i := 0; same && i < len(openOC); i++ {
+				same = len(openTree[i]) == len(openOC[i])
+				for j := 0; same && j < len(openOC[i]); j++ {
+					same = openTree[i][j].X == float64(openOC[i][j].X) && openTree[i][j].Y == float64(openOC[i][j].Y)
+				}
+			}
+			ctx.Count("tree_open_solutions_compared", 1)
+			if !same {
+				ctx.Fail(digest, "tree-open/"+ctName(ct)+"/"+frName(fr), "", fmt.Sprintf("ExecutePolyTree64 returns the open solution %v, ExecuteOC %v", openTree, openOC), oc)
 			}
 		}
 	}
